@@ -61,6 +61,9 @@ class Opts:
         self.phases = False
         self.phase_f = 0.5  # f_max is multiplied by this when phases scale load values
         self.zero_loads = True
+        self.odd_phase_conf = False  # unknown phase names in configurations, phases defined
+        #                              last, or (drop_sys_phases) not defined at all
+        self.drop_sys_phases = False
         self.source_rs = True  # False: every Source gets rs = 0
         self.similar_sources = False  # all sources within x0.8..1.25 of the first one
         self.leaf_loads = True
@@ -171,7 +174,8 @@ class _Gen:
         k = draw(st.integers(2, 4))
         start = draw(st.integers(0, len(PHASE_NAMES) - 1))
         names = [PHASE_NAMES[(start + j) % len(PHASE_NAMES)] for j in range(k)]
-        spec["phases"] = {nm: draw(logf(1e-3, 1e4)) for nm in names}
+        # (durations from a millisecond to more than a day)
+        spec["phases"] = {nm: draw(logf(1e-3, 1e6)) for nm in names}
         self.phase_names = names
 
     def _subset(self, names, allow_empty=True):
@@ -424,6 +428,23 @@ class _Gen:
                         else:
                             conf[ph] = base * draw(st.floats(0.0, 1.5))
                     n["pconf"] = conf
+            if o.odd_phase_conf:
+                # names that are not system phases may appear in a configuration (they never
+                # match), and the system phases may be defined after the components' ones
+                for n in nodes:
+                    pc = n.get("pconf")
+                    if pc and self.chance(1, 6):
+                        if isinstance(pc, list):
+                            n["pconf"] = (["ghost"] + pc) if self.chance(1, 2) else ["ghost"]
+                        else:
+                            keep = dict(pc) if self.chance(1, 2) else {}
+                            keep["ghost"] = list(pc.values())[0]
+                            n["pconf"] = keep
+                if self.chance(1, 2):
+                    spec["_phases_last"] = True
+            if o.drop_sys_phases and self.chance(1, 5):
+                # component configurations without system phases: solve() analyses phase ""
+                spec["phases"] = {}
 
     def _limits(self, n):
         draw = self.draw
@@ -437,6 +458,8 @@ class _Gen:
                 if k == "tp":
                     lo = draw(st.floats(-60.0, 20.0))
                     hi = draw(st.floats(30.0, 200.0))
+                if draw(st.integers(0, 7)) == 5:
+                    hi = float("inf")  # an unbounded upper limit
                 lim[k] = [lo, hi]
         return lim
 
